@@ -3,29 +3,53 @@ _CFG = {"small_int_double": {"quick": 1200, "thorough": 40000},
         "small_ushort_float": {"quick": 300, "thorough": 8000},
         "medium_int_double": {"quick": 200, "thorough": 6000},
         "big_int_double": {"quick": 28, "thorough": 600},
-        "big_short_float": {"quick": 8, "thorough": 200}}
+        "big_short_float": {"quick": 8, "thorough": 200},
+        # integral filtration values (c12_integral.cpp)
+        "small_int_int": {"quick": 400, "thorough": 12000},
+        "small_short_short": {"quick": 250, "thorough": 8000},
+        "small_int_unsigned": {"quick": 200, "thorough": 6000},
+        "small_long_long": {"quick": 200, "thorough": 6000},
+        "medium_int_int": {"quick": 40, "thorough": 1500},
+        # the Python binding's instantiations through the extended call shapes (c12_shapes.cpp)
+        "small_long_double": {"quick": 300, "thorough": 8000},
+        "small_int_float": {"quick": 300, "thorough": 8000},
+        # 1-byte vertex types, special weights, mid-size dense graphs (c12_misc.cpp)
+        "small_schar_float": {"quick": 250, "thorough": 8000},
+        "small_uchar_float": {"quick": 250, "thorough": 8000},
+        "special_int_double": {"quick": 600, "thorough": 20000},
+        "mid_int_double": {"quick": 20, "thorough": 500},
+        "mid_short_float": {"quick": 8, "thorough": 200}}
 _CFG_GCC = {"small_int_double": {"thorough": 10000}, "small_ushort_float": {"thorough": 3000}, "medium_int_double": {"thorough": 1000},
-            "big_int_double": {"thorough": 100}}
+            "big_int_double": {"thorough": 100}, "small_int_int": {"thorough": 3000}, "small_long_double": {"thorough": 3000}}
 _BUILDS = ["flat", "dense", "flat_tbb", "dense_tbb"]
 
 
 def _unit(name, defs, libs, variant="asan", cfg=_CFG, tiers=("quick", "thorough")):
     # config names carry the unit name: the orchestrator keys its shard output files by config name only, and the
     # units (same source, different -D) run concurrently
-    return {"name": name, "src": ["c12_edge_collapse.cpp"], "variant": variant, "defs": defs + ["C12_BUILD=" + name], "libs": libs,
+    return {"name": name, "src": ["c12_edge_collapse.cpp", "c12_integral.cpp", "c12_shapes.cpp", "c12_misc.cpp"], "variant": variant, "defs": defs + ["C12_BUILD=" + name], "libs": libs,
             "configs": {name + "." + k: v for k, v in cfg.items()}, "chunk": 4, "tiers": list(tiers)}
 
 
 SPEC = {
     "property": "C12",
     "rule": "one case = one weighted graph handed to Gudhi::collapse::flag_complex_collapse_edges (the documented one-argument overload) "
-            "as a shuffled list of randomly oriented edges in a std::vector / std::list / std::deque. small_*: 2..10 vertices (11 sometimes in "
+            "as a shuffled list of randomly oriented edges in a std::vector / std::list / std::deque (small_long_double and small_int_float, "
+            "the two instantiations of the Python binding, also: rvalue vector / rvalue list with the two-argument overload and the identity "
+            "delay, rvalue vector with the one-argument overload, boost::irange | transformed yielding prvalue tuples). small_*: 2..10 vertices (11 sometimes in "
             "thorough) of kinds {complete, sparse G(n,p), all-equal weights, Rips graph of integer points (squared distances), cross-polytope "
             "(spheres up to dimension 4) with late antipodal edges, cycle with chords, vertex-driven weights max(a_i,a_j), tiny}; weights "
             "are multiples of 1/4 on a wide grid, 2-3 levels or all equal (heavy ties), optionally negative or shifted, 1 case in 12 with some "
             "+inf edges; every graph is collapsed twice, under two random vertex numberings (a permutation of 0..n-1 or sparse labels up to "
             "60/300), the second call being on the returned graph itself in 1/3 of the cases; vertex/value types int/double, short/float, "
-            "unsigned short/float. medium_*: graph of the barycentric subdivision of the 6-vertex RP^2, of a 13-vertex Moore space M(Z_3,1) or "
+            "unsigned short/float, long/double, int/float, signed char/float and unsigned char/float (half of the numberings contain the label "
+            "127 / 255), and in the flat builds a quarter of the short / unsigned short numberings contain 32767 / 65535. Integral value types "
+            "(small_int_int, small_short_short, small_int_unsigned, small_long_long, medium_int_int): the same graphs with every weight "
+            "multiplied by 4 (translated to >= 0 for unsigned), no +inf edges. special_int_double: the small graphs with weights redrawn "
+            "from {-inf}, {+0.0,-0.0}, {+-DBL_MAX, +-DBL_MIN, denormals}, non-dyadic reals (0.1, 0.3, 1/3, uniform in (-3,3)) or a mixture "
+            "with +inf. mid_*: 12..22 vertices (H_0..H_2 compared, oracle truncated to the 3-skeleton) or 23..40 vertices (H_0..H_1 from the "
+            "2-skeleton; >= 500 edges when complete on >= 33 vertices): complete graphs, G(n,p) with p in [0.5,0.95], Rips graphs of uniform real points in "
+            "[0,1]^d with Euclidean (square-root, non-dyadic) distances, complete or thresholded; a second pass on the output in 1/3. medium_*: graph of the barycentric subdivision of the 6-vertex RP^2, of a 13-vertex Moore space M(Z_3,1) or "
             "of the 7-vertex torus (31..79 vertices) with random or vertex-driven weights and random extra edges, so that the Z_2 and Z_3 "
             "diagrams differ. big_*: 510..700 edges (the size from which tbb::parallel_sort really runs in parallel): unions of small graphs "
             "with interleaved labels, optionally bridged, sparse random blobs, Rips blobs of integer points. For every call: each returned "
@@ -40,8 +64,16 @@ SPEC = {
         "every vertex the same value in the input and in the output filtration, never above its smallest incident input edge",
         "diagrams are compared as multisets of (dimension, birth value, death value) without zero-length intervals; a death at +inf is the same "
         "as no death, so +inf edges are equivalent to absent ones for the comparison",
-        "no NaN, no -inf weights, no loops, no repeated edges, vertex labels >= 0; weights are exactly representable in float",
-        "only the documented one-argument overload is driven (identity delay)",
+        "no loops and no repeated edges (in either orientation): the C++ documentation is silent, the Python docstring of "
+        "gudhi.flag_filtration.edge_collapse.reduce_graph, which calls this function, says 'Listing the same edge twice, or a self-loop, is "
+        "undefined'",
+        "no NaN weights; vertex labels >= 0; every weight is exactly representable in the value type of the call (float configs: dyadic "
+        "or rounded to float first); -inf, +-0.0, +-DBL_MAX, denormal and non-dyadic weights only with double values (special_int_double, "
+        "mid_*_double); integral value types: weights strictly between numeric_limits::lowest() and max() (those two are what the "
+        "repaired code uses as sentinels, as +-inf are for floating types; a +inf double edge is likewise equivalent to no edge)",
+        "the two-argument overload (undocumented, used by the Python binding) is only driven with the identity delay",
+        "mid-size dense graphs (12..40 vertices): only H_0..H_2 (H_0..H_1 from 23 vertices) are compared, higher dimensions are beyond the "
+        "brute-force oracle; label 32767 / 65535 only in the flat builds (the dense table would need (max label + 1)^2 cells)",
         "the order in which equal-valued edges are processed (std::sort / tbb::parallel_sort are not stable) may change the returned edges; "
         "the property is required of whatever is returned, no particular edge list is expected",
         "trusted: oracle/flag.h, oracle/zp_reduce.h, the recursive clique enumerator in c12_common.h (cross-checked against oracle/flag.h on every "
@@ -55,7 +87,7 @@ SPEC = {
         _unit("flat_gcc", [], [], "gasan", _CFG_GCC, ("thorough",)),
         _unit("dense_gcc", ["GUDHI_COLLAPSE_USE_DENSE_ARRAY"], [], "gasan", _CFG_GCC, ("thorough",)),
     ],
-    # about half of what a normal run measures (quick: 9744 cases, 18400 calls); the two first ones are the >= 30 % of DESIGN.md
+    # about half of what a normal run measures (quick: 21016 cases, 42400 calls); the two first ones are the >= 30 % of DESIGN.md
     "floors": {
         "quick": {"case.some_delayed": 2900, "case.some_removed": 4300, "call.total": 9000, "call.some_delayed": 3000,
                   "call.some_removed": 7000, "call.delayed_and_removed": 2800, "call.second_pass": 1400,
@@ -69,26 +101,55 @@ SPEC = {
                   "case.kind.complete_ties": 600, "case.kind.complete_wide": 600, "case.kind.sparse_ties": 600, "case.kind.sparse_wide": 600,
                   "case.kind.cross_polytope": 600, "case.kind.rips_int": 400, "case.kind.all_equal": 190, "case.kind.cycle_chords": 180,
                   "case.kind.vertex_driven": 200, "case.kind.sd_moore_z3": 100, "case.kind.sd_rp2": 90,
+                  # integral value types, per type and per build (the dense builds are where numeric_limits<int>::infinity() == 0 bit)
+                  "case.integral_values": 2100, "case.integral_values.int": 850, "case.integral_values.short": 480,
+                  "case.integral_values.unsigned": 380, "case.integral_values.long": 380, "case.integral_values.negative": 300,
+                  # vertex labels at the top of the vertex type
+                  "numbering.top_of_type.schar": 450, "numbering.top_of_type.uchar": 450, "numbering.top_of_type.short": 450,
+                  "numbering.top_of_type.ushort": 130,
+                  # call shapes of the Python binding / Simplex_tree_interface / utilities
+                  "container.rvalue_vector_2arg": 500, "container.prvalue_transformed": 260, "container.rvalue_list_2arg": 250,
+                  "container.rvalue_vector_1arg": 250,
+                  # special floating-point weights
+                  "case.special.neg_inf": 220, "case.special.signed_zeros": 220, "case.special.huge_tiny": 220,
+                  "case.special.non_dyadic": 220, "case.special.mixed": 220, "case.with_neg_inf_edges": 330,
+                  "case.with_mixed_signed_zeros": 400, "case.with_dbl_max_edges": 500, "case.with_non_dyadic_edges": 600,
+                  "weights.denormal": 1200,
+                  # mid-size dense graphs with the truncated oracle
+                  "call.mid": 70, "case.mid.n_12_22.h0_h2": 24, "case.mid.n_23_32.h0_h1": 5, "case.mid.n_33_40.h0_h1": 19, "case.mid.edges_ge_500": 14,
+                  "case.mid.some_removed": 55, "case.kind.mid_complete": 13, "case.kind.mid_gnp_dense": 8,
+                  "case.kind.mid_rips_real_complete": 15, "case.kind.mid_rips_real_thresholded": 10,
                   "_distinct_nontrivial": 4400},
         "thorough": {"case.some_delayed": 70000, "case.some_removed": 120000, "call.total": 300000, "call.some_delayed": 100000,
                      "call.some_removed": 200000, "edges.delayed": 600000, "edges.removed": 2500000,
                      "cmp.diagram.z2": 300000, "cmp.diagram.z3": 300000, "case.with_ties": 130000, "case.with_inf_edges": 10000,
                      "case.torsion_checked": 9000, "case.edges_ge_500": 1400, "bars.finite.dim3": 2500, "case.clique.10": 9000,
                      "call.build.flat_gcc": 10000, "call.build.dense_gcc": 10000,
+                     # new input classes: 10 x the quick floors (the thorough configs are 25-33 x the quick ones)
+                     "case.integral_values": 21000, "case.integral_values.unsigned": 3800, "case.integral_values.negative": 3000,
+                     "numbering.top_of_type.schar": 4500, "numbering.top_of_type.uchar": 4500, "numbering.top_of_type.short": 4500,
+                     "numbering.top_of_type.ushort": 1300, "container.rvalue_vector_2arg": 5000, "container.prvalue_transformed": 2600,
+                     "case.with_neg_inf_edges": 3300, "case.with_mixed_signed_zeros": 4000, "case.with_dbl_max_edges": 5000,
+                     "case.with_non_dyadic_edges": 6000, "call.mid": 700, "case.mid.edges_ge_500": 60,
+                     "call.integral_values.build.dense_gcc": 2500,
                      "_distinct_nontrivial": 120000},
     },
     "exhaustive": {"quick": False, "thorough": False},
     "manifest": {
         "text": "Runtime monitor under ASan+UBSan: thousands of weighted graphs (complete/sparse/Rips/cross-polytope/cycle/vertex-driven on <= 10 "
                 "vertices with heavy ties, negative and +inf weights; subdivided RP^2 / Z_3 Moore space / torus; 500-700-edge graphs that reach the "
-                "parallel sort) are passed to flag_complex_collapse_edges under random vertex numberings, edge orders, orientations and range "
-                "types, in the four builds {flat map, dense array} x {std::sort, TBB}. Every returned edge must be an input edge with a value not "
+                "parallel sort; complete / dense random / real-point Rips graphs on 12..40 vertices) are passed to flag_complex_collapse_edges "
+                "under random vertex numberings (including the largest label of 1- and 2-byte vertex types), edge orders, orientations, range "
+                "types and call shapes (lvalue containers, the rvalue / two-argument forms of the Python binding, prvalue-tuple ranges), with "
+                "double, float and integral (int, short, unsigned, long) filtration values, and with -inf, signed-zero, +-DBL_MAX, denormal and "
+                "non-dyadic double weights, in the four builds {flat map, dense array} x {std::sort, TBB}. Every returned edge must be an input edge with a value not "
                 "smaller than its input value, and the persistence diagram of the flag filtration of the returned graph must equal that of the "
-                "input graph in every dimension up to the clique number over Z_2 and Z_3, both computed by an independent brute-force clique "
+                "input graph in every dimension up to the clique number (H_0..H_2 / H_0..H_1 for the 12..40-vertex dense graphs) over Z_2 and Z_3, both computed by an independent brute-force clique "
                 "enumeration and textbook column reduction. Held on what was observed, not a proof.",
         "note": "trusted: harness/oracle/flag.h, harness/oracle/zp_reduce.h and the recursive clique enumerator of the harness (cross-checked on every "
                 "small graph); vertices carry the same value before and after (the function does not handle vertex values); diagrams compared as "
-                "value multisets without zero-length intervals; only the documented identity-delay overload; no NaN / -inf weights",
+                "value multisets without zero-length intervals; identity delay only; no NaN weights, no loops, no repeated edges (undefined per the "
+                "Python docstring); integral weights strictly inside the range of their type",
         "technique": "runtime monitoring: randomized and structured inputs, independent reference oracle (clique enumeration + Z_p column reduction) "
                      "on input and output of every call, 4 build variants, under AddressSanitizer/UBSan",
     },
@@ -96,5 +157,7 @@ SPEC = {
 for _b in _BUILDS:
     SPEC["floors"]["quick"]["call.build." + _b] = 2200
     SPEC["floors"]["quick"]["call.edges_ge_500.build." + _b] = 14
+    SPEC["floors"]["quick"]["call.integral_values.build." + _b] = 1000
+    SPEC["floors"]["thorough"]["call.integral_values.build." + _b] = 10000
     SPEC["floors"]["thorough"]["call.build." + _b] = 60000
     SPEC["floors"]["thorough"]["call.edges_ge_500.build." + _b] = 300
